@@ -80,10 +80,17 @@ def _check_chunk(cases):
                 if c["binary"] != "na":
                     t1 = num(c["ths"][0])
                     t2 = num(c["ths"][1]) if len(c["ths"]) > 1 else None
-                    got = verif.util.apply_threshold(np.array([x, x], float), c["bt"], t1, t2)
+                    arr = np.array([x, x], float)
+                    got = verif.util.apply_threshold(arr, c["bt"], t1, t2)
                     n += 1
                     if not all(close(float(g), num(c["binary"])) for g in got):
                         bad("apply_threshold", "%s thresholds %r x=%r: expected %r observed %r" % (c["bt"], c["ths"], c["x"], c["binary"], got.tolist()), c)
+                    # the same array again (verif.data hands out its cached arrays): the second answer is the same event of the same values
+                    again = verif.util.apply_threshold(arr, c["bt"], t1, t2)
+                    n += 1
+                    if not all(close(float(g), num(c["binary"])) for g in again):
+                        bad("apply_threshold:second-call", "%s thresholds %r x=%r: the second evaluation of the same array gives %r, expected %r"
+                            % (c["bt"], c["ths"], c["x"], again.tolist(), c["binary"]), c)
         except SystemExit:
             bad("event:error-exit", "case %r ended in an error exit" % (c,), c)
         except Exception as e:
